@@ -324,7 +324,8 @@ def run_check(pid, tier, seed, replay, t0, debug=False):
                       f"{len(mismatches)} of {len(terms_idx)} cases")
 
     if debug:
-        for i in mismatches[:4]:
+        print(f"{len(mismatches)} mismatches, {len(oracle_fail)} oracle failures")
+        for i in sorted(mismatches, key=lambda j: len(outcomes[j].coq))[:3]:
             print("MISMATCH case:", json.dumps(cases[i])[:600])
             explain(pid, mod, outcomes[i].coq)
         for i in oracle_fail[:6]:
